@@ -40,6 +40,8 @@ fn main() {
         _ => usage(),
       };
       let cfg = RunCfg { seed, tier, threads };
+      let wd: u64 = std::env::var("VERIF_WATCHDOG_S").ok().and_then(|s| s.parse().ok()).unwrap_or(if tier == Tier::Quick { 1500 } else { 6 * 3600 });
+      tmverif::engine::start_watchdog(wd);
       let t0 = Instant::now();
       let rep = match n {
         1 | 2 | 3 | 4 | 5 | 7 | 8 | 9 | 19 => tmverif::props_mapper::check(n, &cfg, &findings),
